@@ -514,6 +514,8 @@ func (m *Mux) serveHTTP(w http.ResponseWriter, r *http.Request) error {
 	if herr != nil {
 		if !stream.sentHeader {
 			w.Header().Set("Content-Encoding", "identity") // try to avoid gzip
+			// Header metadata set before the failure is still sent.
+			setOutgoingHeader(w.Header(), stream.header)
 		}
 		m.encError(w, r, herr)
 	}
